@@ -46,15 +46,19 @@ func (srvs servers) toInternal(
 			MaxPipelineEnabled: ratelimitConf.TCP.Enabled,
 		}
 
+		udpConf := &agd.UDPConfig{
+			// #nosec G115 -- The value has already been validated in
+			// [dnsConfig.validate].
+			MaxRespSize: uint16(dnsConf.MaxUDPResponseSize.Bytes()),
+		}
+
 		switch dnsSrv.Protocol {
 		case agd.ProtoDNS:
 			dnsSrv.TCPConf = tcpConf
-			dnsSrv.UDPConf = &agd.UDPConfig{
-				// #nosec G115 -- The value has already been validated in
-				// [dnsConfig.validate].
-				MaxRespSize: uint16(dnsConf.MaxUDPResponseSize.Bytes()),
-			}
+			dnsSrv.UDPConf = udpConf
 		case agd.ProtoDNSCrypt:
+			dnsSrv.UDPConf = udpConf
+
 			var dcConf *agd.DNSCryptConfig
 			dcConf, err = srv.DNSCrypt.toInternal()
 			if err != nil {
